@@ -26,8 +26,12 @@ def step (c impl : String) : String :=
       let slow := kv toks "slow"
       let big := kv toks "big"
       let internal := kv toks "internal"
-      if slow ≠ "" then specViol s!"slow: {slow} of a {kind} case took longer than the time bound (8 s; hostile input must be answered quickly)"
-      else if big ≠ "" then specViol s!"memory: {big} of a {kind} case allocated more than 1.5 GB"
+      if slow ≠ "" then specViol s!"slow: {slow} of a {kind} case took longer than the time bound (20 s; hostile input must be answered quickly)"
+      else if big ≠ "" then
+        specViol (s!"memory: {big} of a {kind} case allocated more than 1.5 GB" ++
+          (if (big.splitOn "WriteAuthorizationModel").length > 1 then
+             " — super-linear model validation (maps.Clone per step of hasCycle / hasEntrypoints), same root cause as slow: WriteAuthorizationModel"
+           else ""))
       else if codes.any (fun cd => cd.endsWith "!panic") then
         specViol s!"a recovered panic was reported as an error by {kind}: {kv toks "codes"}"
       else if internal ≠ "" then
